@@ -51,9 +51,34 @@ func TestBasicTranslates(t *testing.T) {
 		t.Fatalf("only %d functions found", len(res))
 	}
 	for n, f := range res {
-		if f.Err != nil {
+		if f.Err != nil && !strings.HasSuffix(n, "Prefix") {
 			t.Errorf("%s: %v", n, f.Err)
 		}
+		if f.Err == nil && strings.HasSuffix(n, "Prefix") {
+			t.Errorf("%s: translated as a whole", n)
+		}
+	}
+}
+
+// fragments: the longest translatable prefix, and what is handed on
+func TestPrefix(t *testing.T) {
+	T := New(Load("../testdata", "fixture", "basic"), "go_")
+	f := T.Translate("Ring.RangePrefix#prefix")
+	if f.Err != nil || f.Prefix != 7 || strings.Join(f.Vars, " ") != "v_start v_end v_n v_size" || f.Monadic {
+		t.Errorf("RangePrefix: err=%v prefix=%d vars=%v monadic=%v", f.Err, f.Prefix, f.Vars, f.Monadic)
+	}
+	g := T.Translate("WalkPrefix#prefix")
+	if g.Err != nil || g.Prefix != 4 || strings.Join(g.Vars, " ") != "v_b v_k v_first v_total" || !g.Monadic || !g.Fuel {
+		t.Errorf("WalkPrefix: err=%v prefix=%d vars=%v monadic=%v fuel=%v", g.Err, g.Prefix, g.Vars, g.Monadic, g.Fuel)
+	}
+	if h := T.Translate("Sum"); h.Err != nil {
+		t.Fatal(h.Err)
+	}
+	if h := T.Translate("LoopCall"); h.Err != nil { // calls Sum: fine
+		t.Errorf("LoopCall: %v", h.Err)
+	}
+	if T.Funcs["fixture/basic.WalkPrefix"] != nil {
+		t.Errorf("a fragment must not be callable")
 	}
 }
 
@@ -61,7 +86,7 @@ func TestBasicTranslates(t *testing.T) {
 func TestGolden(t *testing.T) {
 	names := []string{"AddU8", "AddI8", "ConstShift", "VarShl", "ShlS", "Div", "ConstDiv", "Cmp", "EqB", "Clamp", "Normalize",
 		"Shadow", "Named", "Swap", "Switch", "Ring.Next", "Ring.Len", "Ring.Twice", "Ring.Deep", "Outer", "At", "Tail", "BE16", "AndSafe",
-		"Guard", "Search", "Ring.Search", "Hash", "fixture/dep:Cfg.Apply", "Holder.Scaled", "encoding/binary:bigEndian.Uint16", "UseStd", "Find", "RangeAssign", "Forever", "Nested", "LoopSwitch", "Sum", "LoopCall"}
+		"Guard", "Search", "Ring.Search", "Hash", "Ring.RangePrefix#prefix", "WalkPrefix#prefix", "fixture/dep:Cfg.Apply", "Holder.Scaled", "encoding/binary:bigEndian.Uint16", "UseStd", "Find", "RangeAssign", "Forever", "Nested", "LoopSwitch", "Sum", "LoopCall"}
 	T := New(Load("../testdata", "fixture", "basic"), "go_")
 	for _, n := range names {
 		if f := T.Translate(n); f.Err != nil {
